@@ -168,6 +168,11 @@ func (ex *Exec) havocComps(st *State, names []string) {
 		}
 		if s, ok := ex.compSort[n]; ok {
 			fresh(n, s)
+		} else if strings.HasPrefix(n, "G.") {
+			if s, ok := ex.W.ghostVars[strings.TrimPrefix(n, "G.")]; ok {
+				ex.compSort[n] = s
+				fresh(n, s)
+			}
 		}
 	}
 }
